@@ -763,6 +763,8 @@ class Machine(object):
             var.store(a)
             f.for_state[pc] = (b, st)
             ok = var.v <= b if st >= 0 else var.v >= b
+            if getattr(self, "hyp_for_body_once", False):
+                ok = True      # diagnosis only: emulate Color BASIC's bottom-tested FOR
             return pc + 1 if ok else s.match + 1
         if k == "next":
             st = f.for_state.get(s.match)
